@@ -1,5 +1,5 @@
 """C13 -- line selection by `filter` is exact.  See DESIGN.md section 3 / C13."""
-from pyvc.api import (Module, Interface, Method, Iface, Inst, Int, Nat, Bool, Str, Opt, OneOf, Const, Union,
+from pyvc.api import (Module, Interface, Method, Iface, Involution, Inst, Int, Nat, Bool, Str, Opt, OneOf, Const, Union,
                       ListOf, FixedList, Any_, EnumOf)
 from contracts.common import implies, iff
 
@@ -45,7 +45,8 @@ class PlainIntervalI(Interface):
 class IntervalI(PlainIntervalI):
     """IntIntervalWInversion: additionally an `inversion` that is again such an interval."""
     target_class = IntIntervalWInversion
-    attrs = {'inversion': Iface(lambda: IntervalI)}
+    # inversion.inversion has the same members as the interval itself (proved per class: 'involution')
+    attrs = {'inversion': Involution(lambda: IntervalI, 'inversion')}
 
 
 ANY_INTERVAL = Iface(IntervalI)
@@ -79,11 +80,15 @@ def _exact_complement(self, result, n):
     return wf(result) and iff(not mem(self, n), mem(result, n))
 
 
+def _involution(self, result, n):
+    return wf(result.inversion) and iff(mem(result.inversion, n), mem(self, n))
+
+
 for _cls, _shape, _exact in (('Empty', EMPTY, False), ('UpperLimit', UPPER, True), ('LowerLimit', LOWER, True),
                              ('Finite', FINITE, False), ('Unlimited', UNLIMITED, True)):
     M.contract('%s:%s.inversion' % (P_INTERVALS, _cls),
                params=dict(self=_shape), ghosts=dict(n=Int), returns=ANY_INTERVAL, inline=True,
-               ensures={'complement-covered': _complement_sound,
+               ensures={'complement-covered': _complement_sound, 'involution': _involution,
                         **({'complement-exact': _exact_complement} if _exact else {})},
                raises_only=())
 
@@ -93,6 +98,7 @@ M.contract(P_INTERVALS + ':WithCustomInversion.inversion',
                'swaps': lambda self, result, n: iff(mem(result, n), mem(self._inversion, n))
                                                 and iff(mem(result.inversion, n), mem(self._pos, n)),
                'wf': lambda self, result: wf(result) and wf(result.inversion),
+               'involution': _involution,
            },
            raises_only=())
 
@@ -193,3 +199,299 @@ for _name, _rel in (('_int_interval_of_ne', lambda n, x: n != x),
                    'neg-sound': lambda x, n, rel, result: implies(not rel(n, x), mem(result.inversion, n)),
                    'wf': lambda result: wf(result) and wf(result.inversion),
                }, raises_only=())
+
+# ------------------------------------------------------------------------------ matcher_interval
+# Soundness pair carried through every matcher constructor.  `n` is one arbitrary fixed
+# integer (ghost), so all obligations are first-order over the operands.
+
+from pyvc.api import Custom, new_opaque, assume_pred
+from pyvc.interp import BoundMethod
+from contracts.common import forall_range, exists_range, is_opaque
+from exactly_lib.impls.types.interval import matcher_interval
+from exactly_lib.impls.types.interval.with_interval import WithIntInterval
+from exactly_lib.impls.types.matcher.impls import combinator_matchers
+from exactly_lib.type_val_prims.matcher.matcher_base_class import MatcherWTrace
+
+P_MI = 'exactly_lib.impls.types.interval.matcher_interval'
+
+
+class AdaptionI(Interface):
+    """An interval adaption (e.g. to the line-number range): on its domain it loses nothing."""
+    methods = {
+        'dom': Method(returns=Bool, pure=True),
+        '__call__': Method(returns=Iface(IntervalI),
+                           ensures=lambda self, x, result:
+                           _adaption_post(self, x, result)),
+    }
+
+
+def _adaption_post(self, x, result, n):
+    return implies(self.dom(n) and mem(x, n), mem(result, n))
+
+
+# the ensures above needs the ghost n: written as an explicit model instead
+def _adaption_call(interp, self, args, kwargs):
+    r = new_opaque(interp, IntervalI, 'adapted')
+    assume_pred(interp, _adaption_post, self, args[0], r)
+    return r
+
+
+AdaptionI.methods['__call__'] = Method(model=_adaption_call)
+
+ADAPTION = Union(Const(matcher_interval.no_adaption), Iface(AdaptionI))
+
+
+def dom(adaption, n):
+    return True if adaption is matcher_interval.no_adaption else adaption.dom(n)
+
+
+def exact(adaption):
+    """inversions survive: only the identity adaption is known to preserve them"""
+    return adaption is matcher_interval.no_adaption
+
+
+def D(m, n):
+    """Denotation: the matcher accepts the integer n.  For the three combinators this is the
+    meaning proved of their matches_w_trace (C05/C06); for any other matcher it is opaque."""
+    if is_opaque(m):
+        return m.D(n)
+    if isinstance(m, combinator_matchers.Negation):
+        return not D(m._negated, n)
+    if isinstance(m, combinator_matchers.Conjunction):
+        return forall_range(0, len(m._operands), lambda j: D(m._operands[j], n))
+    if isinstance(m, combinator_matchers.Disjunction):
+        return exists_range(0, len(m._operands), lambda j: D(m._operands[j], n))
+    raise ValueError('D: unexpected matcher')
+
+
+def sound(adaption, holds, interval, n):
+    """`interval` is a sound description of a matcher that accepts n exactly when `holds`."""
+    return wf(interval) \
+        and implies(dom(adaption, n) and holds, mem(interval, n)) \
+        and implies(exact(adaption), wf(interval.inversion) and implies(not holds, mem(interval.inversion, n)))
+
+
+def _computer_of(visitor):
+    if isinstance(visitor, matcher_interval._IntervalComputer):
+        return visitor
+    return visitor._matcher_evaluator.__self__
+
+
+def _accept(interp, m, args, kwargs):
+    """Induction hypothesis: accepting either visitor gives an interval that is sound for the
+    (possibly negated) denotation of this matcher.  Justified by the contracts of the five
+    visit_* methods of each visitor, which are proved below, and by the accept() dispatchers."""
+    visitor = args[0]
+    if isinstance(visitor, matcher_interval._IntervalComputer):
+        r = new_opaque(interp, IntervalI, m._pv_uid + '.accept(computer)', index=m._pv_index)
+        assume_pred(interp, _ih_pos, visitor._interval_adaption, m, r)
+    elif isinstance(visitor, matcher_interval._NegationEvaluator):
+        r = new_opaque(interp, IntervalI, m._pv_uid + '.accept(negation_evaluator)', index=m._pv_index)
+        assume_pred(interp, _ih_neg, visitor._matcher_evaluator.__self__._interval_adaption, m, r)
+    else:
+        raise AssertionError('accept: unexpected visitor')
+    return r
+
+
+def _ih_pos(adaption, m, r, n):
+    return sound(adaption, m.D(n), r, n)
+
+
+def _ih_neg(adaption, m, r, n):
+    return sound(adaption, not m.D(n), r, n)
+
+
+def _matcher_interval_ok(self, n):
+    return sound(matcher_interval.no_adaption, self.D(n), self.interval, n)
+
+
+class MatcherI(Interface):
+    target_class = MatcherWTrace
+    may_also_be = (WithIntInterval,)
+    attrs = {'interval': Iface(IntervalI)}
+    methods = {
+        'D': Method(returns=Bool, pure=True),
+        'accept': Method(model=_accept),
+    }
+    # a matcher that implements WithIntInterval has an interval that is sound for it
+    # (PropertyMatcherWithIntInterval: proved below; IntComparisonMatcher: proved below)
+    invariant = staticmethod(_matcher_interval_ok)
+
+
+MATCHER = Iface(MatcherI)
+
+
+def _covers_everything(unknown, adaption, n):
+    return wf(unknown) and wf(unknown.inversion) \
+        and implies(dom(adaption, n), mem(unknown, n) and mem(unknown.inversion, n))
+
+
+def _make_computer(interp, name):
+    adaption = ADAPTION.make(interp, name + '._interval_adaption')
+    unknown = new_opaque(interp, IntervalI, name + '._interval_of_unknown_class')
+    assume_pred(interp, _covers_everything, unknown, adaption)
+    comp = object.__new__(matcher_interval._IntervalComputer)
+    neg = object.__new__(matcher_interval._NegationEvaluator)
+    comp._interval_of_unknown_class = unknown
+    comp._interval_adaption = adaption
+    comp._negation_evaluator = neg
+    neg._interval_of_unknown_class = unknown
+    neg._matcher_evaluator = BoundMethod(matcher_interval._IntervalComputer.__dict__['_eval_matcher'], comp,
+                                         matcher_interval._IntervalComputer)
+    return comp
+
+
+COMPUTER = Custom(_make_computer)
+NEG_EVALUATOR = Custom(lambda interp, name: _make_computer(interp, name)._negation_evaluator)
+OPERANDS = ListOf(MATCHER, min_len=1)
+
+# --- _IntervalComputer
+
+M.contract(P_MI + ':_IntervalComputer.visit_constant',
+           params=dict(self=COMPUTER, value=Bool), ghosts=dict(n=Int), returns=ANY_INTERVAL,
+           ensures={'sound': lambda self, value, result, n: sound(self._interval_adaption, value, result, n)},
+           raises_only=())
+
+M.contract(P_MI + ':_IntervalComputer.visit_negation',
+           params=dict(self=COMPUTER, operand=MATCHER), ghosts=dict(n=Int), returns=ANY_INTERVAL,
+           ensures={'sound': lambda self, operand, result, n:
+           sound(self._interval_adaption, not D(operand, n), result, n)},
+           raises_only=())
+
+M.contract(P_MI + ':_IntervalComputer.visit_non_standard',
+           params=dict(self=COMPUTER, matcher=MATCHER), ghosts=dict(n=Int), returns=ANY_INTERVAL,
+           ensures={'sound': lambda self, matcher, result, n:
+           sound(self._interval_adaption, D(matcher, n), result, n)},
+           raises_only=())
+
+M.contract(P_MI + ':_IntervalComputer.visit_conjunction',
+           params=dict(self=COMPUTER, operands=OPERANDS), ghosts=dict(n=Int), returns=ANY_INTERVAL,
+           ensures={'sound': lambda self, operands, result, n:
+           sound(self._interval_adaption,
+                 forall_range(0, len(operands), lambda j: D(operands[j], n)), result, n)},
+           raises_only=())
+
+M.contract(P_MI + ':_IntervalComputer.visit_disjunction',
+           params=dict(self=COMPUTER, operands=OPERANDS), ghosts=dict(n=Int), returns=ANY_INTERVAL,
+           ensures={'sound': lambda self, operands, result, n:
+           sound(self._interval_adaption,
+                 exists_range(0, len(operands), lambda j: D(operands[j], n)), result, n)},
+           raises_only=())
+
+
+def _combined(operator, operands, n):
+    if operator is combinations.union:
+        return exists_range(0, len(operands), lambda j: D(operands[j], n))
+    return forall_range(0, len(operands), lambda j: D(operands[j], n))
+
+
+def _is_dual(operator, inversion_operator):
+    return (operator is combinations.union and inversion_operator is combinations.intersection) or \
+        (operator is combinations.intersection and inversion_operator is combinations.union)
+
+
+_OPERATOR = OneOf(combinations.union, combinations.intersection)
+
+M.contract(P_MI + ':_IntervalComputer._bin_op',
+           params=dict(self=COMPUTER, operator=_OPERATOR, inversion_operator=_OPERATOR, operands=OPERANDS),
+           requires=lambda operator, inversion_operator: _is_dual(operator, inversion_operator),
+           ghosts=dict(n=Int), returns=ANY_INTERVAL,
+           ensures={'sound': lambda self, operator, operands, result, n:
+           sound(self._interval_adaption, _combined(operator, operands, n), result, n)},
+           raises_only=())
+
+
+def _reduce_inv(value, _i, _xs, function, n):
+    """accumulated interval covers (union) / is exactly (intersection) the elements so far"""
+    return wf(value) and (
+        implies(exists_range(0, _i, lambda j: mem(_xs[j], n)), mem(value, n))
+        if function is combinations.union else
+        iff(forall_range(0, _i, lambda j: mem(_xs[j], n)), mem(value, n))
+    )
+
+
+M.loop(P_MI + ':_IntervalComputer._bin_op', 'reduce#0', invariant=_reduce_inv,
+       modifies=dict(value=ANY_INTERVAL, element='local'))
+M.loop(P_MI + ':_IntervalComputer._bin_op', 'reduce#1', invariant=_reduce_inv,
+       modifies=dict(value=ANY_INTERVAL, element='local'))
+
+# --- _NegationEvaluator: computes the interval of the *negation* of the visited matcher
+
+_ADAPTION_OF_NEG = lambda self: self._matcher_evaluator.__self__._interval_adaption
+
+M.contract(P_MI + ':_NegationEvaluator.visit_constant',
+           params=dict(self=NEG_EVALUATOR, value=Bool), ghosts=dict(n=Int), returns=ANY_INTERVAL,
+           ensures={'sound-for-negation': lambda self, value, result, n:
+           sound(_ADAPTION_OF_NEG(self), not value, result, n)},
+           raises_only=())
+
+M.contract(P_MI + ':_NegationEvaluator.visit_negation',
+           params=dict(self=NEG_EVALUATOR, operand=MATCHER), ghosts=dict(n=Int), returns=ANY_INTERVAL,
+           ensures={'sound-for-negation': lambda self, operand, result, n:
+           sound(_ADAPTION_OF_NEG(self), D(operand, n), result, n)},
+           raises_only=())
+
+M.contract(P_MI + ':_NegationEvaluator.visit_conjunction',
+           params=dict(self=NEG_EVALUATOR, operands=OPERANDS), ghosts=dict(n=Int), returns=ANY_INTERVAL,
+           ensures={'sound-for-negation': lambda self, operands, result, n:
+           sound(_ADAPTION_OF_NEG(self),
+                 not forall_range(0, len(operands), lambda j: D(operands[j], n)), result, n)},
+           raises_only=())
+
+M.contract(P_MI + ':_NegationEvaluator.visit_disjunction',
+           params=dict(self=NEG_EVALUATOR, operands=OPERANDS), ghosts=dict(n=Int), returns=ANY_INTERVAL,
+           ensures={'sound-for-negation': lambda self, operands, result, n:
+           sound(_ADAPTION_OF_NEG(self),
+                 not exists_range(0, len(operands), lambda j: D(operands[j], n)), result, n)},
+           raises_only=())
+
+M.contract(P_MI + ':_NegationEvaluator.visit_non_standard',
+           params=dict(self=NEG_EVALUATOR, matcher=MATCHER), ghosts=dict(n=Int), returns=ANY_INTERVAL,
+           ensures={'sound-for-negation': lambda self, matcher, result, n:
+           sound(_ADAPTION_OF_NEG(self), not D(matcher, n), result, n)},
+           raises_only=())
+
+# --- the recursion knot and the entry points
+
+M.contract(P_MI + ':_IntervalComputer._eval_matcher',
+           params=dict(self=COMPUTER, matcher=MATCHER), ghosts=dict(n=Int), returns=ANY_INTERVAL, inline=True,
+           ensures={'sound': lambda self, matcher, result, n: sound(self._interval_adaption, D(matcher, n), result, n)},
+           raises_only=())
+
+
+def _unlimited_both_ways(x):
+    return is_unlimited(x) and is_unlimited(x.inversion)
+
+
+M.contract(P_MI + ':_IntervalComputer.__init__',
+           params=dict(self=Inst(matcher_interval._IntervalComputer),
+                       interval_of_unknown_class=ANY_INTERVAL, interval_adaption=ADAPTION), inline=True,
+           requires=lambda interval_of_unknown_class: _unlimited_both_ways(interval_of_unknown_class),
+           ghosts=dict(n=Int),
+           ensures={
+               'unknown-covers-domain': lambda self, n:
+               _covers_everything(self._interval_of_unknown_class, self._interval_adaption, n),
+               'knot': lambda self, interval_adaption:
+               self._interval_adaption is interval_adaption
+               and self._negation_evaluator._interval_of_unknown_class is self._interval_of_unknown_class
+               and self._negation_evaluator._matcher_evaluator == self._eval_matcher,
+           }, raises_only=())
+
+M.contract(P_MI + ':interval_of__w_inversion',
+           params=dict(matcher=MATCHER, interval_of_unknown_class=ANY_INTERVAL, interval_adaption=ADAPTION),
+           requires=lambda interval_of_unknown_class: _unlimited_both_ways(interval_of_unknown_class),
+           ghosts=dict(n=Int), returns=ANY_INTERVAL,
+           ensures={'sound': lambda matcher, interval_adaption, result, n:
+           sound(interval_adaption, D(matcher, n), result, n)},
+           raises_only=())
+
+M.contract(P_MI + ':interval_of',
+           params=dict(matcher=MATCHER, interval_of_unknown_class=ANY_INTERVAL, interval_adaption=ADAPTION),
+           requires=lambda interval_of_unknown_class: _unlimited_both_ways(interval_of_unknown_class),
+           ghosts=dict(n=Int), returns=ANY_INTERVAL,
+           ensures={'sound': lambda matcher, interval_adaption, result, n:
+           sound(interval_adaption, D(matcher, n), result, n)},
+           raises_only=())
+
+M.contract(P_MI + ':no_adaption', params=dict(x=ANY_INTERVAL), inline=True,
+           ensures={'identity': lambda x, result: result is x}, raises_only=())
